@@ -2,9 +2,10 @@
    coordinate at a time, for finite operands of magnitude <= 2^E.
 
    avg1 a b = (a + b) / 2.0 (one coordinate of `(midpoints[j] + midpoints[j+1]) / 2.0`):
-     finite, |avg1 a b| <= 2^E, |avg1 a b - (a + b)/2| <= 2^(E-24) + 2^-150
-     (half an ulp of a sum below 2^(E+1), halved exactly unless the sum is
-     subnormal, where the division rounds by at most 2^-150)          [avg1_spec]
+     finite, |avg1 a b| <= 2^E, |avg1 a b - (a + b)/2| <= 2^(E-25) + 2^-150
+     (half an ulp of a sum below 2^(E+1) is 2^(E-24); it is halved exactly
+     unless the sum is subnormal, where the division rounds by at most
+     2^-150)                                                          [avg1_spec]
    dd1 p c n = p - c * 2.0 + n (one coordinate of `prev - curr * 2.0 + next`):
      finite, |dd1 p c n| <= 11/32 whenever the real p - 2c + n has
      magnitude <= 5/16 and E <= 18 (the product is exact, the difference
@@ -142,7 +143,7 @@ Proof. rewrite bpow_plus. cbn. lra. Qed.
 Lemma avg1_spec E a b : (0 <= E <= 126)%Z ->
   fin a -> fin b -> Rabs (B2R a) <= bp E -> Rabs (B2R b) <= bp E ->
   fin (avg1 a b) /\ Rabs (B2R (avg1 a b)) <= bp E /\
-  Rabs (B2R (avg1 a b) - (B2R a + B2R b) / 2) <= bp (E - 24) + bp (-150).
+  Rabs (B2R (avg1 a b) - (B2R a + B2R b) / 2) <= bp (E - 25) + bp (-150).
 Proof.
   intros HE Fa Fb Ha Hb. unfold avg1.
   assert (Hs : Rabs (B2R a + B2R b) <= bp (E + 1)).
@@ -160,8 +161,8 @@ Proof.
   unfold Rdiv. rewrite Rabs_mult, (Rabs_pos_eq (/ 2)) by lra. rewrite Rs.
   pose proof (RN_err (B2R a + B2R b) (E + 1) ltac:(lia) Hs) as He.
   rewrite fexp32_eq, Z.max_l in He by lia.
-  replace (E + 1 - 24)%Z with (E - 24 + 1)%Z in He by ring. rewrite <- bp_double in He.
-  pose proof (bpow_gt_0 radix2 (E - 24)). lra.
+  replace (E + 1 - 24)%Z with (E - 25 + 1 + 1)%Z in He by ring. rewrite <- !bp_double in He.
+  pose proof (bpow_gt_0 radix2 (E - 25)). lra.
 Qed.
 
 (* ---------- one coordinate of the second difference ---------- *)
